@@ -172,3 +172,42 @@ def base_stats(world, cov, extra=None):
     if extra:
         st.update(extra)
     return st
+
+
+# ------------------------------------------------------------------------------------ reference peer batches
+
+def to_refpeer(sc, r, knobs=None):
+    """Turn a PAIR scenario into one where node B is replaced by the active reference responder (sim/refpeer.py) living at B's address
+    with B's configuration.  Everything B would have started itself is removed (the reference peer never starts an exchange)."""
+    cb = sc['nodes'].pop('B')
+    sc['ops'] = [op for op in sc['ops'] if op.get('node') != 'B']
+    sc['refpeer'] = {'seed': r.randrange(2 ** 31), 'conf': cb['conf'], 'addr': cb['addrs'][0], 'knobs': dict(knobs or {})}
+    sc['meta']['batch'] = 'refpeer'
+    sc['meta']['both'] = False
+    return sc
+
+
+def attach_refpeer(w, scenario):
+    from . import configs
+    from .refpeer import RefPeer
+    rp = scenario['refpeer']
+    conn = next(iter(configs.read_conf(rp['conf']).values()))
+    return RefPeer(w, rp['addr'], conn, rp['seed'], rp.get('knobs'))
+
+
+class PeerView:
+    """What the judges written for the wiretap need, served from the reference peer's own records."""
+
+    def __init__(self, peer):
+        self.children = peer.children
+        self.messages = []
+        self.problems = []
+        self.sessions = {}
+        self.counts = peer.counts
+
+
+def refpeer_nodes(scenario):
+    """scenario['nodes'] plus the reference peer under its name, for judges that read configurations by node name."""
+    nodes = dict(scenario['nodes'])
+    nodes['R'] = {'conf': scenario['refpeer']['conf'], 'addrs': [scenario['refpeer']['addr']]}
+    return nodes
